@@ -128,9 +128,10 @@ fn shrink_query(q: &QSpec) -> Vec<QSpec> {
             }
         }
     }
-    if q.lay != Lay::C {
+    if q.lay != Lay::C || q.ys_lay != Lay::C {
         let mut c = q.clone();
         c.lay = Lay::C;
+        c.ys_lay = Lay::C;
         out.push(c);
     }
     out
